@@ -17,13 +17,13 @@ import (
 	"github.com/sirupsen/logrus"
 
 	"github.com/taskctl/taskctl/internal/vh/common"
-	"github.com/taskctl/taskctl/vrt"
-	"github.com/taskctl/taskctl/vrt/vsync"
 	"github.com/taskctl/taskctl/pkg/output"
 	"github.com/taskctl/taskctl/pkg/runner"
 	"github.com/taskctl/taskctl/pkg/scheduler"
 	"github.com/taskctl/taskctl/pkg/task"
 	"github.com/taskctl/taskctl/pkg/variables"
+	"github.com/taskctl/taskctl/vrt"
+	"github.com/taskctl/taskctl/vrt/vsync"
 )
 
 // ---- stdout seam ----
@@ -53,6 +53,7 @@ func (s *seam) Write(p []byte) (int, error) {
 		if s.park {
 			vrt.Park("tok:" + line)
 		}
+		vrt.Emit("tokend", line)
 	}
 	s.bufs[id] = buf
 	return len(p), nil
@@ -87,7 +88,11 @@ func buildWorld(sc *Scenario) *world {
 	for _, c := range sc.Ctxs {
 		up := cmds(c.Up)
 		if c.UpFail && len(up) > 0 {
-			up[len(up)-1] += "; exit 1"
+			if c.UpFailFirst {
+				up[0] += "; exit 1"
+			} else {
+				up[len(up)-1] += "; exit 1"
+			}
 		}
 		w.ctxs[c.Name] = runner.NewExecutionContext(nil, "", variables.NewVariables(), up, cmds(c.Down), cmds(c.Before), cmds(c.After))
 	}
@@ -103,6 +108,10 @@ func buildWorld(sc *Scenario) *world {
 	r.OutputFormat = output.FormatRaw
 	w.r = r
 	for _, tc := range sc.Tasks {
+		if tc.SameAs != "" {
+			w.tasks[tc.Name] = w.tasks[tc.SameAs]
+			continue
+		}
 		t := task.NewTask()
 		t.Name = tc.Name
 		t.Context = tc.Ctx
@@ -350,10 +359,10 @@ func main() {
 	res := common.NewResult("rr")
 	if *common.Replay != "" {
 		var cf struct {
-			Conc    *concCase  `json:"conc"`
-			Watch   *watchCase `json:"watch"`
+			Conc    *concCase    `json:"conc"`
+			Watch   *watchCase   `json:"watch"`
 			Cockpit *cockpitCase `json:"cockpit"`
-			Choices []int      `json:"choices"`
+			Choices []int        `json:"choices"`
 		}
 		common.ReadReplay(&cf)
 		if cf.Cockpit != nil {
